@@ -10,17 +10,17 @@ META = {
 
 
 def run(run, model):
-    gates.c02_gate(run, model)
-    gates.c01_read_live(run, model, "C02.read-live", ("POST",))
-    gates.c02_result_identity(run, model)
-    gates.c02_exc_transparent(run, model)
+    run.do(gates.c02_gate, model)
+    run.do(gates.c01_read_live, model, "C02.read-live", ("POST",))
+    run.do(gates.c02_result_identity, model)
+    run.do(gates.c02_exc_transparent, model)
     for role, ck in gates.checkers(model).items():
         h = loops.helper_of(model, ck, "POST")
         if h is None:
             continue
         fi, lp, mp = h
-        loops.analyse_verdict(run, "C02.first-failure", model, fi, lp, mp, 1)
-    common.append_rules(run, model, "C02.append", which=("post",))
+        run.do(loops.verdict_rule, model, "C02.first-failure", fi, lp, mp, 1)
+    run.do(common.append_rules, model, "C02.append", which=("post",))
     run.minimum("C02.gate", 2)
     run.minimum("C02.result-identity", 11, "two returns per marker wrapper, one in the __new__ wrapper")
     run.minimum("C02.exc-transparent", 11)
